@@ -93,6 +93,12 @@ theorem isContig_ite {c : Prop} [Decidable c] {a b : Loc} (ha : isContig a = tru
     (hb : isContig b = true) : isContig (if c then a else b) = true := by
   split <;> assumption
 
+theorem isContig_ite' {c : Prop} [Decidable c] {a b : Loc} (ha : c → isContig a = true)
+    (hb : ¬ c → isContig b = true) : isContig (if c then a else b) = true := by
+  split
+  · exact ha ‹_›
+  · exact hb ‹_›
+
 theorem expand_contig {l : Loc} (hl : isContig l = true) (i n : Int) : isContig (l.expand i n) = true := by
   cases l <;> simp [isContig] at hl
   · simp [Loc.expand, Loc.betweenExpand, isContig]
@@ -535,43 +541,192 @@ theorem mapLocs_refines {rec : LHeap → MLoc → Option (MLoc × LHeap)} {f : L
     (by simpa [hlen] using o0) (by simp [ReadsList]) (fun _ hx => by cases hx) hc
   exact ⟨o.pre, o.wf, by rw [o.rd]; simpa using hy⟩
 
-/-- **`Expand` on memory is `Loc.expand` on values**, for every fuel that yields a result -/
-theorem expandMem_refines (g : Grow) (i n : Int) :
-    ∀ k, MapRefines (expandMem g i n k) (fun l => l.expand i n) := by
+/-- the common shape of `Expand` / `Shift` / `Normalize` computes the pure method `F`, given that
+`F` has that shape on values and the method of the contiguous kinds computes `F` -/
+theorem methMem_refines (g : Grow) {leafM : Nat → LHeap → Loc → Option (MLoc × LHeap)} {F : Loc → Loc}
+    (hFj : ∀ ls, F (.joined ls) = Loc.join (ls.map F)) (hFo : ∀ ls, F (.ordered ls) = Loc.order (ls.map F))
+    (hFc : ∀ l, F (.compl l) = .compl (F l))
+    (hfresh : ∀ k h l r, leafM k h l = some r → PostM h.length h r)
+    (hleaf : ∀ k h l r, isContig l = true → leafM k h l = some r → Reads r.2 (F l) r.1) :
+    ∀ k, MapRefines (methMem leafM g k) F := by
   intro k
   induction k with
-  | zero => intro h m r l he; simp [expandMem] at he
+  | zero => intro h m r l he; simp [methMem] at he
   | succ k ih =>
     intro h m r l he hr
     cases m with
     | leaf l' =>
       obtain ⟨e, hc⟩ := reads_leaf.1 hr
       subst e
-      simp only [expandMem, Option.some.injEq] at he
-      subst he
-      exact (reads_contig (expand_contig hc i n)).2 rfl
+      simp only [methMem] at he
+      exact hleaf k h _ r hc he
     | joined s =>
       obtain ⟨ls, e, hw, hl⟩ := reads_mjoined hr
       subst e
-      simp only [expandMem] at he
+      simp only [methMem] at he
       obtain ⟨r1, h1, h2⟩ := Option.bind_eq_some_iff.1 he
-      have p1 := mapLocs_refines (expandMem_fresh g i n k) ih hw hl h1
+      have p1 := mapLocs_refines (methMem_fresh g hfresh k) ih hw hl h1
       have p2 := joinLocs_refines g (k + 1) p1.2.1 p1.2.2 h2
-      simpa [Loc.expand, expandList_map] using p2.2
+      rw [hFj]
+      exact p2.2
     | ordered s =>
       obtain ⟨ls, e, hw, hl⟩ := reads_mordered hr
       subst e
-      simp only [expandMem] at he
+      simp only [methMem] at he
       obtain ⟨r1, h1, h2⟩ := Option.bind_eq_some_iff.1 he
-      have p1 := mapLocs_refines (expandMem_fresh g i n k) ih hw hl h1
+      have p1 := mapLocs_refines (methMem_fresh g hfresh k) ih hw hl h1
       have p2 := orderLocs_refines g (k + 1) p1.2.1 p1.2.2 h2
-      simpa [Loc.expand, expandList_map] using p2.2
+      rw [hFo]
+      exact p2.2
     | compl m =>
       obtain ⟨l', e, hl⟩ := reads_mcompl hr
       subst e
-      simp only [expandMem] at he
+      simp only [methMem] at he
       obtain ⟨r1, h1, h2⟩ := Option.map_eq_some_iff.1 he
       subst h2
+      rw [hFc]
       exact reads_compl.2 ⟨_, rfl, ih h m r1 l' h1 hl⟩
+
+/-- **`Expand` on memory is `Loc.expand` on values**, for every fuel that yields a result -/
+theorem expandMem_refines (g : Grow) (i n : Int) :
+    ∀ k, MapRefines (expandMem g i n k) (fun l => l.expand i n) :=
+  methMem_refines g (fun ls => by simp [Loc.expand, expandList_map])
+    (fun ls => by simp [Loc.expand, expandList_map]) (fun l => by simp [Loc.expand])
+    (fun _ h l r he => by simp only [Option.some.injEq] at he; subst he; exact post_value h _)
+    (fun _ h l r hc he => by
+      simp only [Option.some.injEq] at he
+      subst he
+      exact (reads_contig (expand_contig hc i n)).2 rfl)
+
+/-! ### `Shift`, `Normalize` -/
+
+theorem shiftList_map (i n : Int) : ∀ ls : List Loc, Loc.shiftList ls i n = ls.map (fun l => l.shift i n)
+  | [] => by simp [Loc.shiftList]
+  | l :: ls => by simp [Loc.shiftList, shiftList_map i n ls]
+
+theorem normalizeList_map (len : Int) : ∀ ls : List Loc,
+    Loc.normalizeList ls len = ls.map (fun l => l.normalize len)
+  | [] => by simp [Loc.normalizeList]
+  | l :: ls => by simp [Loc.normalizeList, normalizeList_map len ls]
+
+/-- `Join(left, right)` / `Order(left, right)` of new values reads as `Loc.join` / `Loc.order` -/
+theorem lit_join_refines (g : Grow) (k : Nat) (h : LHeap) (ls : List Loc)
+    (hc : ∀ c ∈ ls, isContig c = true) {r : MLoc × LHeap}
+    (he : joinLocs g k (litSlice h (ls.map MLoc.leaf)).2 (litSlice h (ls.map MLoc.leaf)).1 = some r) :
+    Reads r.2 (Loc.join ls) r.1 := by
+  have o := litSlice_owned (List.prefix_refl h) (ls.map MLoc.leaf)
+  exact (joinLocs_refines g k o.wf (by rw [o.rd]; exact readsList_leaves ls hc) he).2
+
+theorem lit_order_refines (g : Grow) (k : Nat) (h : LHeap) (ls : List Loc)
+    (hc : ∀ c ∈ ls, isContig c = true) {r : MLoc × LHeap}
+    (he : orderLocs g k (litSlice h (ls.map MLoc.leaf)).2 (litSlice h (ls.map MLoc.leaf)).1 = some r) :
+    Reads r.2 (Loc.order ls) r.1 := by
+  have o := litSlice_owned (List.prefix_refl h) (ls.map MLoc.leaf)
+  exact (orderLocs_refines g k o.wf (by rw [o.rd]; exact readsList_leaves ls hc) he).2
+
+theorem rangedExpand_contig (s e : Int) (p5 p3 : Bool) (i n : Int) :
+    isContig (Loc.rangedExpand s e p5 p3 i n) = true :=
+  expand_contig (l := .ranged s e p5 p3) rfl i n
+
+theorem ambiguousExpand_contig (s e i n : Int) : isContig (Loc.ambiguousExpand s e i n) = true :=
+  expand_contig (l := .ambiguous s e) rfl i n
+
+theorem shiftLeaf_refines (g : Grow) (i n : Int) (k : Nat) (h : LHeap) (l : Loc) (r : MLoc × LHeap)
+    (hl : isContig l = true) (he : shiftLeaf g i n k h l = some r) : Reads r.2 (l.shift i n) r.1 := by
+  have value : ∀ l : Loc, isContig (l.shift i n) = true → (some (MLoc.leaf (l.shift i n), h) = some r) →
+      Reads r.2 (l.shift i n) r.1 := by
+    intro l hc e
+    simp only [Option.some.injEq] at e
+    subst e
+    exact (reads_contig hc).2 rfl
+  cases l <;> simp [isContig] at hl
+  · exact value _ (by simp [Loc.shift, Loc.betweenExpand, isContig]) he
+  · exact value _ (by simp only [Loc.shift, Loc.pointExpand]; exact isContig_ite rfl rfl) he
+  · rename_i s e p5 p3
+    simp only [shiftLeaf] at he
+    by_cases hc : 0 < n ∧ s < i ∧ i < e
+    · rw [if_pos hc] at he
+      have := lit_join_refines g k h [_, _] (by simp [isContig]) he
+      simpa [Loc.shift, Loc.rangedShift, show n ≠ 0 by omega, show ¬ n < 0 by omega, hc.2.1, hc.2.2]
+        using this
+    · rw [if_neg hc] at he
+      refine value _ ?_ he
+      simp only [Loc.shift, Loc.rangedShift]
+      exact isContig_ite' (fun _ => rfl) fun h1 => isContig_ite' (fun _ => rangedExpand_contig ..)
+        fun h2 => isContig_ite' (fun h3 => absurd ⟨by omega, h3.1, h3.2⟩ hc) (fun _ => rfl)
+  · rename_i s e
+    simp only [shiftLeaf] at he
+    by_cases hc : 0 < n ∧ s < i ∧ i < e
+    · rw [if_pos hc] at he
+      have := lit_order_refines g k h [_, _] (by simp [isContig]) he
+      simpa [Loc.shift, Loc.ambiguousShift, show n ≠ 0 by omega, show ¬ n < 0 by omega, hc.2.1, hc.2.2]
+        using this
+    · rw [if_neg hc] at he
+      refine value _ ?_ he
+      simp only [Loc.shift, Loc.ambiguousShift]
+      exact isContig_ite' (fun _ => rfl) fun h1 => isContig_ite' (fun _ => ambiguousExpand_contig ..)
+        fun h2 => isContig_ite' (fun h3 => absurd ⟨by omega, h3.1, h3.2⟩ hc) (fun _ => rfl)
+
+/-- **`Shift` on memory is `Loc.shift` on values** -/
+theorem shiftMem_refines (g : Grow) (i n : Int) :
+    ∀ k, MapRefines (shiftMem g i n k) (fun l => l.shift i n) :=
+  methMem_refines g (fun ls => by simp [Loc.shift, shiftList_map])
+    (fun ls => by simp [Loc.shift, shiftList_map]) (fun l => by simp [Loc.shift])
+    (shiftLeaf_fresh g i n) (shiftLeaf_refines g i n)
+
+theorem normalizeLeaf_refines (g : Grow) (len : Int) (k : Nat) (h : LHeap) (l : Loc) (r : MLoc × LHeap)
+    (hl : isContig l = true) (he : normalizeLeaf g len k h l = some r) :
+    Reads r.2 (l.normalize len) r.1 := by
+  have value : ∀ l : Loc, isContig (l.normalize len) = true →
+      (some (MLoc.leaf (l.normalize len), h) = some r) → Reads r.2 (l.normalize len) r.1 := by
+    intro l hc e
+    simp only [Option.some.injEq] at e
+    subst e
+    exact (reads_contig hc).2 rfl
+  cases l <;> simp [isContig] at hl
+  · exact value _ (by simp [Loc.normalize, isContig]) he
+  · exact value _ (by simp [Loc.normalize, isContig]) he
+  · rename_i s e p5 p3
+    simp only [normalizeLeaf] at he
+    by_cases hc : e - s ≠ len ∧ ¬ (Int.tmod s len < Int.tmod (e - 1) len + 1)
+    · rw [if_pos hc] at he
+      have := lit_join_refines g k h [_, _] (by simp [isContig]) he
+      simpa [Loc.normalize, Loc.rangedNormalize, hc.1, hc.2] using this
+    · rw [if_neg hc] at he
+      refine value _ ?_ he
+      simp only [Loc.normalize, Loc.rangedNormalize]
+      exact isContig_ite' (fun _ => rangedExpand_contig ..) fun h1 =>
+        isContig_ite' (fun _ => rfl) fun h2 => absurd ⟨h1, h2⟩ hc
+  · exact value _ (by simp [Loc.normalize, isContig]) he
+
+/-- **`Normalize` on memory is `Loc.normalize` on values** -/
+theorem normalizeMem_refines (g : Grow) (len : Int) :
+    ∀ k, MapRefines (normalizeMem g len k) (fun l => l.normalize len) :=
+  methMem_refines g (fun ls => by simp [Loc.normalize, normalizeList_map])
+    (fun ls => by simp [Loc.normalize, normalizeList_map]) (fun l => by simp [Loc.normalize])
+    (normalizeLeaf_fresh g len) (normalizeLeaf_refines g len)
+
+/-- `Complement()` allocates nothing and reads as `Loc.complement` — sharing the receiver's slices -/
+theorem complementMem_refines {h : LHeap} {l : Loc} {m : MLoc} (hr : Reads h l m) :
+    Reads h l.complement (complementMem m) := by
+  cases m with
+  | compl m' =>
+    obtain ⟨l', e, hl⟩ := reads_mcompl hr
+    subst e
+    exact hl
+  | leaf l' =>
+    obtain ⟨e, hc⟩ := reads_leaf.1 hr
+    subst e
+    have : l'.complement = .compl l' := by cases l' <;> simp [isContig] at hc <;> rfl
+    rw [this]
+    exact reads_compl.2 ⟨_, rfl, hr⟩
+  | joined s =>
+    obtain ⟨ls, e, _, _⟩ := reads_mjoined hr
+    subst e
+    exact reads_compl.2 ⟨_, rfl, hr⟩
+  | ordered s =>
+    obtain ⟨ls, e, _, _⟩ := reads_mordered hr
+    subst e
+    exact reads_compl.2 ⟨_, rfl, hr⟩
 
 end Gts.Mem
